@@ -3,6 +3,20 @@ import tgen
 from core import CoreProp, ser, de
 
 
+TPL_PARTS = [b'"', b'say "', b'" ', b'""', b"\\", b"a\\b", b"\\\"", b"\n", b"l1\nl2", b"{{", b"}}", b"{", b"}} -}}", b"'", b"`", b"x", b" ",
+             b"", b"", b"<b>", b"&"]
+
+
+def template_literal(rng, env):
+    """`lit${var}lit...`: literal parts from TPL_PARTS around variables of the data"""
+    names = sorted(env.types) or [b"undefinedname"]
+    parts = [rng.choice(TPL_PARTS)]
+    for _ in range(rng.choice([1, 1, 2, 3])):
+        parts.append(('id', rng.choice(names)))
+        parts.append(rng.choice(TPL_PARTS))
+    return ('tpl', parts)
+
+
 class C01(CoreProp):
     id = "C01"
     prop_module = "Props.C01"
@@ -12,7 +26,9 @@ class C01(CoreProp):
     design_ref = "DESIGN.md section 6/C01"
     rule = ("typed random expression trees over data variables, literals and var-declared variables (80% inside the "
             "property's domain by construction, 20% with off-domain mixes), printed as JS source with random redundant "
-            "parentheses, wrapped in `= expr` (escaped buffered code), rendered by the real engine; non-trivial = "
+            "parentheses, wrapped in `= expr` (escaped buffered code), rendered by the real engine; 8% of the cases also print a "
+            "template literal whose literal parts hold quotes, backslashes, line feeds and {{ }} (F-C01-h), half of them in a "
+            "branch that is not taken; non-trivial = "
             "expression depth >= 2 and at least one variable; distinct by SHA-1 of the case. For the scalar fragment the agreement "
             "of compile + execute with S is a theorem (C01_compile_eval, C01_text); the run checks the model against the real engine "
             "there and carries the property for the heap constructs")
@@ -59,6 +75,12 @@ class C01(CoreProp):
                 e0 = g.lit(t) if rng.random() < 0.5 else g.expr(env, t, 1)
                 nodes.append(('code', [('vars', [('var', x, e0)])], False, False))
                 env.types[x] = t
+            if rng.random() < 0.08:
+                # F-C01-h: a template literal whose literal parts hold quotes, backslashes, line feeds and template
+                # delimiters.  S has no template literals: printed, it is judged against the model only; in a branch that
+                # is not taken S prescribes the rest of the page, and a template that does not load is a violation
+                tpl = ('code', [('expr', template_literal(rng, env))], True, True)
+                nodes.append(tpl if rng.random() < 0.5 else ('cond', ('bool', False), [tpl], None))
             t = rng.choice(['num', 'str', 'bool', 'num', 'str'])
             nodes.append(('code', [('expr', g.expr(env, t))], True, True))
             cases.append({"nodes": ser(nodes), "datas": [ser(data)]})
